@@ -42,15 +42,17 @@ Section Orig.
     Definition t (i j : nat) : F := dot (pt i) (pt j).
 
     (** instrumentation only (never influences a result): [a], [b] squared distances whose
-        computed values may be off by about [2 sqrt(d) dv + dv^2], [dv = 2^-46 max |coordinate|] *)
+        computed values may be off by about [2 sqrt(d) dv + dv^2], [dv = 2^-46 max |coordinate|];
+        not flagged when both are table entries [t i i] (vertex against vertex) *)
     Definition lmax : F := fold_right (fun p m => fmax (fmax (abs (vx p)) (fmax (abs (vy p)) (abs (vz p)))) m) zero Y.
-    Definition near (a b : F) : list N :=
-      let dv := cst (1 # 70368744177664) * lmax in
+    Definition dv0 : F := cst (1 # 70368744177664) * lmax.
+    Definition near (dv : F) (both_vertices : bool) (a b : F) : list N :=
+      if both_vertices then [] else
       if abs (a - b) <=? cst (1 # 1099511627776) * fmax a b + dv * (sqrt a + sqrt b) + dv * dv
       then [170%N] else [].
 
     (** lines 224-227 *)
-    Definition from_vertex (vi : nat) : sol := Sol (pt vi) (t vi vi) [one].
+    Definition from_vertex (vi : nat) (tvv : F) : sol := Sol (pt vi) tvv [one].
 
     (** lines 229-234; [barycentric_coordinates[:2].dot(simplex.points[vi])] *)
     Definition from_line_segment (i j : nat) (a b : F) : sol :=
@@ -82,137 +84,159 @@ Section Orig.
 
     (** "if <eligible>: solution_d.from_...; if solution_d.distance_squared < solution.distance_squared:
          n_simplex_points = ..; solution.copy_from(solution_d, ..); ordered_indices[:..] = .." *)
-    Definition try_cand (c : N) (eligible : bool) (cand : unit -> sol) (ord : list nat) (st : bstate)
+    Definition try_cand (dv : F) (c : N) (eligible : bool) (cand : unit -> sol) (ord : list nat) (st : bstate)
       : bstate :=
       let '(n, s, o, tr) := st in
       if eligible then
         let sd := cand tt in
-        if s_d2 sd <? s_d2 s then (length ord, sd, ord, tr ++ near (s_d2 sd) (s_d2 s) ++ [(100 + 3 * c + 2)%N])
-        else (n, s, o, tr ++ near (s_d2 sd) (s_d2 s) ++ [(100 + 3 * c + 1)%N])
+        if s_d2 sd <? s_d2 s then (length ord, sd, ord, tr ++ near dv false (s_d2 sd) (s_d2 s) ++ [(100 + 3 * c + 2)%N])
+        else (n, s, o, tr ++ near dv false (s_d2 sd) (s_d2 s) ++ [(100 + 3 * c + 1)%N])
       else (n, s, o, tr ++ [(100 + 3 * c)%N]).
 
     (** "check_vertex_i = simplex.dot_product_table[i, i] < solution.distance_squared; if ..:
          n_simplex_points = 1; solution.from_vertex(simplex, i); ordered_indices[0] = i" *)
-    Definition try_vertex (c : N) (vi : nat) (st : bstate) : bstate :=
+    Definition try_vertex (dv : F) (c : N) (vi : nat) (tvv : F) (st : bstate) : bstate :=
       let '(n, s, o, tr) := st in
-      if t vi vi <? s_d2 s then (1%nat, from_vertex vi, [vi], tr ++ near (t vi vi) (s_d2 s) ++ [(100 + 3 * c + 2)%N])
-      else (n, s, o, tr ++ near (t vi vi) (s_d2 s) ++ [(100 + 3 * c + 1)%N]).
+      if tvv <? s_d2 s then (1%nat, from_vertex vi tvv, [vi], tr ++ near dv (Nat.eqb n 1) tvv (s_d2 s) ++ [(100 + 3 * c + 2)%N])
+      else (n, s, o, tr ++ near dv (Nat.eqb n 1) tvv (s_d2 s) ++ [(100 + 3 * c + 1)%N]).
 
     Definition finish (st : bstate) : bres := let '(_, s, o, tr) := st in BRes s o tr.
 
     (** lines 865-885 *)
     Definition backup_procedure_line_segment : bres :=
+      let dv := dv0 in   (* instrumentation only *)
+      let t00 := t 0 0 in
+      let t10 := t 1 0 in
+      let t11 := t 1 1 in
       (* backup_line_segments *)
-      let d12 := t 0 0 - t 1 0 in
-      let d02 := t 1 1 - t 1 0 in
-      let st : bstate := (1%nat, from_vertex 0, [0%nat], [92%N]) in
-      let st := try_cand 1 (negb ((d02 <=? zero) || (d12 <=? zero)))
+      let d12 := t00 - t10 in
+      let d02 := t11 - t10 in
+      let st : bstate := (1%nat, from_vertex 0 t00, [0%nat], [92%N]) in
+      let st := try_cand dv 1 (negb ((d02 <=? zero) || (d12 <=? zero)))
                          (fun _ => from_line_segment 0 1 d02 d12) [0; 1]%nat st in
-      let st := try_vertex 8 1 st in
+      let st := try_vertex dv 8 1 t11 st in
       finish st.
 
     (** lines 888-931 *)
     Definition backup_procedure_face : bres :=
+      let dv := dv0 in   (* instrumentation only *)
+      let t00 := t 0 0 in
+      let t10 := t 1 0 in
+      let t11 := t 1 1 in
+      let t20 := t 2 0 in
+      let t21 := t 2 1 in
+      let t22 := t 2 2 in
       (* backup_faces *)
-      let d12 := t 0 0 - t 1 0 in
-      let d02 := t 1 1 - t 1 0 in
-      let d24 := t 0 0 - t 2 0 in
-      let e132 := t 1 0 - t 2 1 in
+      let d12 := t00 - t10 in
+      let d02 := t11 - t10 in
+      let d24 := t00 - t20 in
+      let e132 := t10 - t21 in
       let d26 := d02 * d24 + d12 * e132 in
       (* face_coordinates_2 *)
-      let e123 := t 2 0 - t 2 1 in
-      let d04 := t 2 2 - t 2 0 in
+      let e123 := t20 - t21 in
+      let d04 := t22 - t20 in
       let d16 := d04 * d12 + d24 * e123 in
       (* face_coordinates_3 *)
       let e213 := - e123 in
-      let d15 := t 2 2 - t 2 1 in
-      let d25 := t 1 1 - t 2 1 in
+      let d15 := t22 - t21 in
+      let d25 := t11 - t21 in
       let d06 := d15 * d02 + d25 * e213 in
-      let st : bstate := (1%nat, from_vertex 0, [0%nat], [93%N]) in
-      let st := try_cand 1 (negb ((d02 <=? zero) || (d12 <=? zero)))
+      let st : bstate := (1%nat, from_vertex 0 t00, [0%nat], [93%N]) in
+      let st := try_cand dv 1 (negb ((d02 <=? zero) || (d12 <=? zero)))
                          (fun _ => from_line_segment 0 1 d02 d12) [0; 1]%nat st in
-      let st := try_cand 2 (negb ((d04 <=? zero) || (d24 <=? zero)))
+      let st := try_cand dv 2 (negb ((d04 <=? zero) || (d24 <=? zero)))
                          (fun _ => from_line_segment 0 2 d04 d24) [0; 2]%nat st in
-      let st := try_cand 3 (negb ((d06 <=? zero) || (d16 <=? zero) || (d26 <=? zero)))
+      let st := try_cand dv 3 (negb ((d06 <=? zero) || (d16 <=? zero) || (d26 <=? zero)))
                          (fun _ => from_face 0 1 2 d06 d16 d26) [0; 1; 2]%nat st in
-      let st := try_vertex 8 1 st in
-      let st := try_vertex 9 2 st in
-      let st := try_cand 11 (negb ((d15 <=? zero) || (d25 <=? zero)))
+      let st := try_vertex dv 8 1 t11 st in
+      let st := try_vertex dv 9 2 t22 st in
+      let st := try_cand dv 11 (negb ((d15 <=? zero) || (d25 <=? zero)))
                          (fun _ => from_line_segment 2 1 d25 d15) [2; 1]%nat st in
       finish st.
 
     (** lines 934-1025 *)
     Definition backup_procedure_tetrahedron : bres :=
+      let dv := dv0 in   (* instrumentation only *)
+      let t00 := t 0 0 in
+      let t10 := t 1 0 in
+      let t11 := t 1 1 in
+      let t20 := t 2 0 in
+      let t21 := t 2 1 in
+      let t22 := t 2 2 in
+      let t30 := t 3 0 in
+      let t31 := t 3 1 in
+      let t32 := t 3 2 in
+      let t33 := t 3 3 in
       (* backup_tetrahedron: backup_faces *)
-      let d12 := t 0 0 - t 1 0 in
-      let d02 := t 1 1 - t 1 0 in
-      let d24 := t 0 0 - t 2 0 in
-      let e132 := t 1 0 - t 2 1 in
+      let d12 := t00 - t10 in
+      let d02 := t11 - t10 in
+      let d24 := t00 - t20 in
+      let e132 := t10 - t21 in
       let d26 := d02 * d24 + d12 * e132 in
-      let e123 := t 2 0 - t 2 1 in
-      let d04 := t 2 2 - t 2 0 in
+      let e123 := t20 - t21 in
+      let d04 := t22 - t20 in
       let d16 := d04 * d12 + d24 * e123 in
       let e213 := - e123 in
-      let d15 := t 2 2 - t 2 1 in
-      let d25 := t 1 1 - t 2 1 in
+      let d15 := t22 - t21 in
+      let d25 := t11 - t21 in
       let d06 := d15 * d02 + d25 * e213 in
       (* rest of backup_tetrahedron *)
-      let d38 := t 0 0 - t 3 0 in
-      let e142 := t 1 0 - t 3 1 in
+      let d38 := t00 - t30 in
+      let e142 := t10 - t31 in
       let d3_11 := d02 * d38 + d12 * e142 in
-      let e143 := t 2 0 - t 3 2 in
+      let e143 := t20 - t32 in
       let d3_12 := d04 * d38 + d24 * e143 in
       let d3_14 := d06 * d38 + d16 * e142 + d26 * e143 in
       (* tetrahedron_coordinates_4 *)
-      let e124 := t 3 0 - t 3 1 in
-      let e134 := t 3 0 - t 3 2 in
-      let d08 := t 3 3 - t 3 0 in
+      let e124 := t30 - t31 in
+      let e134 := t30 - t32 in
+      let d08 := t33 - t30 in
       let d1_11 := d08 * d12 + d38 * e124 in
       let d2_12 := d08 * d24 + d38 * e134 in
       (* tetrahedron_coordinates_5 *)
-      let d19 := t 3 3 - t 3 1 in
-      let d39 := t 1 1 - t 3 1 in
+      let d19 := t33 - t31 in
+      let d39 := t11 - t31 in
       let e214 := - e124 in
       let d0_11 := d19 * d02 + d39 * e214 in
       let d2_14 := d0_11 * d24 + d1_11 * e132 + d3_11 * e134 in
       (* tetrahedron_coordinates_6 *)
-      let d2_10 := t 3 3 - t 3 2 in
-      let d3_10 := t 2 2 - t 3 2 in
+      let d2_10 := t33 - t32 in
+      let d3_10 := t22 - t32 in
       let e314 := - e134 in
       let d0_12 := d2_10 * d04 + d3_10 * e314 in
       let d1_14 := d0_12 * d12 + d2_12 * e123 + d3_12 * e124 in
       (* tetrahedron_coordinates_7 *)
-      let e243 := t 2 1 - t 3 2 in
+      let e243 := t21 - t32 in
       let d3_13 := d15 * d39 + d25 * e243 in
-      let e234 := t 3 1 - t 3 2 in
+      let e234 := t31 - t32 in
       let d2_13 := d19 * d25 + d39 * e234 in
       let e324 := - e234 in
       let d1_13 := d2_10 * d15 + d3_10 * e324 in
       let d0_14 := d1_13 * d02 + d2_13 * e213 + d3_13 * e214 in
-      let st : bstate := (1%nat, from_vertex 0, [0%nat], [94%N]) in
-      let st := try_cand 1 (negb ((d02 <=? zero) || (d12 <=? zero)))
+      let st : bstate := (1%nat, from_vertex 0 t00, [0%nat], [94%N]) in
+      let st := try_cand dv 1 (negb ((d02 <=? zero) || (d12 <=? zero)))
                          (fun _ => from_line_segment 0 1 d02 d12) [0; 1]%nat st in
-      let st := try_cand 2 (negb ((d04 <=? zero) || (d24 <=? zero)))
+      let st := try_cand dv 2 (negb ((d04 <=? zero) || (d24 <=? zero)))
                          (fun _ => from_line_segment 0 2 d04 d24) [0; 2]%nat st in
-      let st := try_cand 3 (negb ((d06 <=? zero) || (d16 <=? zero) || (d26 <=? zero)))
+      let st := try_cand dv 3 (negb ((d06 <=? zero) || (d16 <=? zero) || (d26 <=? zero)))
                          (fun _ => from_face 0 1 2 d06 d16 d26) [0; 1; 2]%nat st in
-      let st := try_cand 4 (negb ((d08 <=? zero) || (d38 <=? zero)))
+      let st := try_cand dv 4 (negb ((d08 <=? zero) || (d38 <=? zero)))
                          (fun _ => from_line_segment 0 3 d08 d38) [0; 3]%nat st in
-      let st := try_cand 5 (negb ((d0_11 <=? zero) || (d1_11 <=? zero) || (d3_11 <=? zero)))
+      let st := try_cand dv 5 (negb ((d0_11 <=? zero) || (d1_11 <=? zero) || (d3_11 <=? zero)))
                          (fun _ => from_face 0 1 3 d0_11 d1_11 d3_11) [0; 1; 3]%nat st in
-      let st := try_cand 6 (negb ((d0_12 <=? zero) || (d2_12 <=? zero) || (d3_12 <=? zero)))
+      let st := try_cand dv 6 (negb ((d0_12 <=? zero) || (d2_12 <=? zero) || (d3_12 <=? zero)))
                          (fun _ => from_face 0 3 2 d0_12 d3_12 d2_12) [0; 3; 2]%nat st in
-      let st := try_cand 7 (negb ((d0_14 <=? EPSILON_O) || (d1_14 <=? EPSILON_O)
+      let st := try_cand dv 7 (negb ((d0_14 <=? EPSILON_O) || (d1_14 <=? EPSILON_O)
                                   || (d2_14 <=? EPSILON_O) || (d3_14 <=? EPSILON_O)))
                          (fun _ => from_tetrahedron d0_14 d1_14 d2_14 d3_14) [0; 1; 2; 3]%nat st in
-      let st := try_vertex 8 1 st in
-      let st := try_vertex 9 2 st in
-      let st := try_vertex 10 3 st in
-      let st := try_cand 11 (negb ((d15 <=? zero) || (d25 <=? zero)))
+      let st := try_vertex dv 8 1 t11 st in
+      let st := try_vertex dv 9 2 t22 st in
+      let st := try_vertex dv 10 3 t33 st in
+      let st := try_cand dv 11 (negb ((d15 <=? zero) || (d25 <=? zero)))
                          (fun _ => from_line_segment 2 1 d25 d15) [2; 1]%nat st in
-      let st := try_cand 12 (negb ((d19 <=? zero) || (d39 <=? zero)))
+      let st := try_cand dv 12 (negb ((d19 <=? zero) || (d39 <=? zero)))
                          (fun _ => from_line_segment 3 1 d39 d19) [3; 1]%nat st in
-      let st := try_cand 13 (negb ((d2_10 <=? zero) || (d3_10 <=? zero)))
+      let st := try_cand dv 13 (negb ((d2_10 <=? zero) || (d3_10 <=? zero)))
                          (fun _ => from_line_segment 2 3 d2_10 d3_10) [2; 3]%nat st in
       (* face 123: "diff < 0.0 or n_simplex_points == 4 and diff <= 0.0" *)
       let '(n, s, o, tr) := st in
@@ -221,8 +245,8 @@ Section Orig.
           let sd := from_face 3 1 2 d3_13 d1_13 d2_13 in
           let diff := s_d2 sd - s_d2 s in
           if (diff <? zero) || (Nat.eqb n 4 && (diff <=? zero)) then
-            (3%nat, sd, [3; 1; 2]%nat, tr ++ near (s_d2 sd) (s_d2 s) ++ [144%N])
-          else (n, s, o, tr ++ near (s_d2 sd) (s_d2 s) ++ [143%N])
+            (3%nat, sd, [3; 1; 2]%nat, tr ++ near dv false (s_d2 sd) (s_d2 s) ++ [144%N])
+          else (n, s, o, tr ++ near dv false (s_d2 sd) (s_d2 s) ++ [143%N])
         else (n, s, o, tr ++ [142%N]) in
       finish st.
   End WithPoints.
@@ -230,7 +254,7 @@ Section Orig.
   (** lines 839-862 (with [backup=True]); [None]: [assert len(simplex) == 4] fails *)
   Definition backup_procedure (Y : list (V3 F)) : option bres :=
     match length Y with
-    | 1%nat => Some (BRes (from_vertex Y 0) [0%nat] [91%N])
+    | 1%nat => Some (BRes (from_vertex Y 0 (t Y 0 0)) [0%nat] [91%N])
     | 2%nat => Some (backup_procedure_line_segment Y)
     | 3%nat => Some (backup_procedure_face Y)
     | 4%nat => Some (backup_procedure_tetrahedron Y)
